@@ -89,6 +89,42 @@ CHECKS = {
         technique="property-based testing: differential against reference tables; exhaustive grid",
         design="DESIGN.md section 2 C19",
     ),
+    "C10": dict(
+        text="Generated-input search over programs that read group members by absolute index and by offset; reference-interpreter executions on concrete groups must be admitted by absolute_context(i), gtxn_context(own index) and relative_context(k) at every block of the trace; per-index contexts of indices the block's own index set excludes must be empty. Exploration.",
+        note='Trusted: vf/ravm.py (reference AVM interpreter for the modelled fragment, self-tested at setup), vf/rcfg.py, generator-side condition annotations; witnesses are well-formed transactions only; the valuation search is capped by run count (a cap can hide a violation, never invent one).',
+        technique="property-based testing: reference-interpreter witnesses on concrete groups vs per-member contexts",
+        design="DESIGN.md section 2 C10",
+    ),
+    "C12": dict(
+        text="Generated-input search over programs x root-to-block dispatch paths x build orders; structural validity of the function (copied main blocks, error blocks exactly at off-path successors, shared subroutines), soundness of its contexts for the reference executions that start with the path, independence from other functions built, and an unchanged structural snapshot of the contract's own graph. Exploration.",
+        note='Trusted: vf/ravm.py (reference AVM interpreter for the modelled fragment, self-tested at setup), vf/rcfg.py, generator-side condition annotations; witnesses are well-formed transactions only; the valuation search is capped by run count (a cap can hide a violation, never invent one).',
+        technique="property-based testing: reference model + metamorphic (build order) + invariant (contract graph unchanged)",
+        design="DESIGN.md section 2 C12",
+    ),
+    "C13": dict(
+        text="Generated-input search over group configurations (1-3 transactions, logic-sigs/applications, absolute indices and offsets) written as YAML + .teal files; a joint reference search over concrete groups on which every configured contract accepts obliges the detector to list a transaction that carries the dangerous value; single transaction + single contract: verdict must equal the single-contract verdict. Exploration. The 'cleared' (precision) half of the statement is only checked through the single-contract equivalence.",
+        note='Trusted: vf/ravm.py (reference AVM interpreter for the modelled fragment, self-tested at setup), vf/rcfg.py, generator-side condition annotations; witnesses are well-formed transactions only; the valuation search is capped by run count (a cap can hide a violation, never invent one).',
+        technique="property-based testing: reference group semantics (existential witnesses) + differential single vs group mode",
+        design="DESIGN.md section 2 C13",
+    ),
+    "C14": dict(
+        text="Generated histories (pool of programs x sequences of analyse / detect in drawn order and repetition / rebuild function / printer) in one process; after every step the canonical snapshot must equal the baseline computed for the program alone in a fresh subprocess; a second fresh subprocess under another PYTHONHASHSEED must give byte-identical output; contexts are compared before/after detectors. Exploration over histories.",
+        note="Trusted: the snapshot canonicalisation (sets sorted, path order and JSON bytes exact). Fresh-process baselines are real subprocesses of /venv/bin/python.",
+        technique="property-based testing: history (operation-sequence) generation against a fresh-process baseline; hash-seed differential",
+        design="DESIGN.md section 2 C14",
+    ),
+    "C15": dict(
+        text="Metamorphic testing: generated program + drawn composition of the eight listed meaning-preserving rewrites; contexts of blocks that hold the same instructions and the instruction sequences of the reported paths must be identical for original and rewritten contract. Exploration.",
+        note="Trusted: the rewrites are meaning preserving by construction (padding only at statement boundaries recorded by the generator; subroutine moves by re-lowering the same AST).",
+        technique="property-based testing: metamorphic relation (same meaning => same result)",
+        design="DESIGN.md section 2 C15",
+    ),
+    "C18": dict(
+        text="Generated programs run through the CLI in-process; an independent DOT reader compares cfg / subroutine-cfg / path / transaction-context exports with the reference graph, the reported paths and the computed contexts; JSON count/success (with and without a provoked error) and --filter-paths against an independent re.search. Exploration.",
+        note="Trusted: vf/dotparse.py (independent reader of the DOT format), vf/rcfg.py.",
+        technique="property-based testing: round trip through the exported artefacts against reference graph and API results",
+        design="DESIGN.md section 2 C18",
+    ),
 }
 
 NOT_BUILT = "check not built yet in this session (work in progress; see DESIGN.md section 2 for the planned oracle)"
